@@ -22,10 +22,14 @@ import (
 // ever move their own handles to the front leave their own handles in the reverse order of their last moves.
 func TestThreadSafeListConcurrentConsistency(t *testing.T) {
 	const check = "threadsafe_list_concurrent_consistency"
-	stats.Rule(check, "rapid draws 2..8 goroutines on ONE thread-safe ds.List, each owning 2..4 handles it pushed before the start, and a per-goroutine script of 10..60 operations from {MoveToFront, MoveToBack, MoveBefore/MoveAfter relative to another own handle, PushBack of a fresh value} with drawn yields; all goroutines are released together. Oracle at quiescence (bounded walks): forward walk and backward walk visit the same handles in mirrored order, Len equals that count, the multiset of values equals initial values + pushed values, no handle is lost or duplicated. The interleaving is the scheduler's; 20 s stall-tolerant watchdog. Distinct by program; non-trivial = >= 3 goroutines and >= 100 operations in total")
+	stats.Rule(check, "rapid draws 2..8 goroutines on ONE thread-safe ds.List (NewList() or NewList(false), drawn), each owning 2..4 handles it pushed before the start, and a per-goroutine script of 10..60 operations from {MoveToFront, MoveToBack, MoveBefore/MoveAfter relative to another own handle, PushBack of a fresh value} with drawn yields; all goroutines are released together. Oracle at quiescence (bounded walks): forward walk and backward walk visit the same handles in mirrored order, Len equals that count, the multiset of values equals initial values + pushed values, no handle is lost or duplicated. The interleaving is the scheduler's; 20 s stall-tolerant watchdog. Distinct by program; non-trivial = >= 3 goroutines and >= 100 operations in total")
 	rapid.Check(t, func(rt *rapid.T) {
 		g := rapid.IntRange(2, 8).Draw(rt, "goroutines")
+		// both spellings of "thread-safe": no argument and an explicit false
 		l := ds.NewList[int]()
+		if rapid.Bool().Draw(rt, "explicitFalse") {
+			l = ds.NewList[int](false)
+		}
 		type script struct {
 			own []ds.ListElement[int]
 			ops []int
